@@ -61,6 +61,25 @@ impl<T> Resampler<T> for FastFixedIn<T>""", """    fn update_ratio(&mut self, ne
 }
 
 impl<T> Resampler<T> for FastFixedIn<T>""")], 'FastFixedIn: a non-ramped ratio change is ramped over the next chunk instead of taking effect at once'),
+ 'revert-KF-B': ('C03', 'src/asynchro_fast.rs', [("""        self.needed_input_size =
+            (self.last_index + advance + POLYNOMIAL_LEN_U as f64).ceil() as usize;
+    }""", """        self.needed_input_size = (self.last_index + advance).ceil() as usize + POLYNOMIAL_LEN_U;
+    }""")], 'KF-B returns: FastFixedOut casts a negative float to usize before adding the filter length'),
+ 'revert-KF-C': ('C03', 'src/asynchro_sinc.rs', [("""        let advance =
+            0.5 * (t_ratio + t_ratio_end) * self.chunk_size as f64 + 0.5 * (t_ratio_end - t_ratio);
+        self.needed_input_size =
+            (self.last_index + advance + self.interpolator.len() as f64).ceil() as usize;""", """        let advance = self.chunk_size as f64 / (0.5 / t_ratio + 0.5 / t_ratio_end);
+        self.needed_input_size =
+            (self.last_index + advance + self.interpolator.len() as f64).ceil() as usize;""")], 'KF-C returns: SincFixedOut estimates the input need of a ramped chunk as chunk/mean(ratio)'),
+ 'revert-KF-F': ('C05', 'src/asynchro_sinc.rs', [("""            buf.copy_within(
+                self.current_buffer_fill..self.current_buffer_fill + 2 * sinc_len,
+                0,
+            );
+        }
+        self.current_buffer_fill = self.chunk_size;""", """            buf.copy_within(self.chunk_size..self.chunk_size + 2 * sinc_len, 0);
+        }
+        self.current_buffer_fill = self.chunk_size;""")], 'KF-F returns: SincFixedIn shifts its history by the new chunk size after set_chunk_size'),
+ 'revert-KF-A': ('C03', 'src/asynchro_fast.rs', [("""            - t_ratio.max(t_ratio_end).ceil() as isize;""", """            - t_ratio_end.ceil() as isize;""")], 'KF-A returns: FastFixedIn reserves only ceil(1/target) frames at the end of a ramped chunk'),
  'static-scratch': ('C18', 'src/synchro.rs', [], 'FFT unit keeps its overlap in a process-wide static instead of per instance'),
 }
 def main():
@@ -80,11 +99,11 @@ def main():
         r=sh('CARGO_NET_OFFLINE=true cargo test --offline 2>&1 | grep -E "^test result|error(\\[|:)" | head -5')
         passed = r.stdout.count('test result: ok')>=2 and 'FAILED' not in r.stdout and 'error' not in r.stdout
         d=sh('git diff -- src').stdout
-        out='/verif/seeded/own-%s'%name
+        out='/verif/seeded/%s'%(name if name.startswith('revert-') else 'own-'+name)
         if passed:
             os.makedirs(out,exist_ok=True)
             open(out+'/patch.diff','w').write(d)
-            meta={'id':'own-'+name,'property':prop,'what':what,'origin':'harness author (DESIGN.md section 8)','repo_tests_with_patch':'pass (cargo test --offline: '+' | '.join(r.stdout.strip().splitlines())+')'}
+            meta={'id':(name if name.startswith('revert-') else 'own-'+name),'property':prop,'what':what,'origin':'harness author (DESIGN.md section 8)','repo_tests_with_patch':'pass (cargo test --offline: '+' | '.join(r.stdout.strip().splitlines())+')'}
             json.dump(meta,open(out+'/meta.json','w'),indent=1)
         print(name, 'suite passes' if passed else 'SUITE NOTICES / build error: '+r.stdout.strip().replace('\n',' | '))
     sh('git checkout -- .')
